@@ -1,0 +1,52 @@
+//go:build verif
+
+// Contracts of this package for the deductive verifier in /verif (vcgo).
+// Comment-only; compiled only with -tags verif.
+
+package reverseproxy
+
+// ---- the agent's HTTP forwarder (C08) -----------------------------------------------
+// The agent forwards a tunnelled request to the configured local address with
+// the standard library's single-host reverse proxy and nothing else: piko adds
+// no rewriting of its own (method, path, query, Host and headers are whatever
+// that proxy does with them), attaches the timeout exactly when one is
+// configured and the request is not a websocket upgrade, and maps a forwarding
+// failure to 504 (deadline) or 502.
+
+//@ ghost gSingleHostFor *url.URL
+//@ ghost gSingleHostProxy *httputil.ReverseProxy
+
+//@ extern net/http/httputil.NewSingleHostReverseProxy
+//@   modifies-all $gSingleHostFor $gSingleHostProxy
+//@   ghost-set gSingleHostFor = target
+//@   ghost-set gSingleHostProxy = result
+//@   ensures[fresh] result != nil && fresh(result)
+//@   ensures[director-only] result.Rewrite == nil && result.ModifyResponse == nil
+
+//@ nonnil ReverseProxy.proxy ReverseProxy.logger
+//@ immutable ReverseProxy.proxy ReverseProxy.timeout ReverseProxy.logger
+
+//@ contract NewReverseProxy
+//@   serves C08
+//@   requires[env-logger] logger != nil
+//@   ensures[standard-proxy] result != nil && result.proxy == gSingleHostProxy && gSingleHostProxy != nil && result.timeout == conf.Timeout
+//@   ensures[no-rewriting] result.proxy.Rewrite == nil && result.proxy.ModifyResponse == nil
+
+//@ contract (*ReverseProxy).ServeHTTP
+//@   serves C08
+//@   requires[request] r != nil && r.Header != nil && w != nil
+//@   requires[fresh-step] !gProxied && !gTimeoutSet
+//@   ensures[proxied] gProxied
+//@   ensures[timeout-rule] gTimeoutSet == (p.timeout != 0 && old(hdrUpgrade[r.Header]) != "websocket")
+//@   ensures[no-status] gStatus == old(gStatus) && gWrote == old(gWrote)
+
+//@ contract errorResponse
+//@   serves C08
+//@   requires[writer] w != nil
+//@   ensures[status] gWrote && gStatus == statusCode
+
+//@ contract (*ReverseProxy).errorHandler
+//@   serves C08
+//@   requires[writer] w != nil
+//@   ensures[504-on-deadline] errIs(err, context.DeadlineExceeded) ==> gWrote && gStatus == 504
+//@   ensures[502-otherwise] !errIs(err, context.DeadlineExceeded) ==> gWrote && gStatus == 502
